@@ -490,13 +490,25 @@ func sweepC06(tier string, shard, shards int, emit func(C06Case)) {
 			emit(C06Case{Src: "(" + op + rep(" x", n) + ")", Mask: 15, Undef: true, Binds: []int{-3, 7}, NoDump: true, Origin: "sweep-wide"})
 		}
 	}
+	// big AND wide: about 18 000 nodes in 120-operand calls (a deep operand stack), between the event
+	// limit and the plain limit - compiles without events, must be refused (not mis-built) with them
+	{
+		g := "(+ x" + rep(" 1", 120) + ")"
+		G := "(+" + rep(" "+g, 30) + ")"
+		src := "(+" + rep(" "+G, 5) + ")"
+		for _, ev := range []int{0, 1, 2} {
+			for _, mask := range []int{0, 4, 15} {
+				emit(C06Case{Src: src, Mask: mask, Undef: true, Events: ev, Binds: []int{7, -3}, NoDump: true, Origin: "sweep-big-wide"})
+			}
+		}
+	}
 	// deep but valid nesting: recursion in parser / optimizer / builder ends in a program or an error
 	depths := []int{100, 1000, 5000, 16000, 16383, 16384, 20000}
 	if tier == "thorough" {
 		depths = append(depths, 32766, 32767, 32768, 50000)
 	}
 	for _, d := range depths {
-		for _, ev := range []int{0, 1} {
+		for _, ev := range []int{0, 1, 2} { // none, ReportEvent, Debug alone
 			emit(C06Case{Src: rep("(not ", d) + "true" + rep(")", d), Mask: 0, Events: ev, Binds: []int{1}, NoDump: d > 300, Origin: fmt.Sprintf("deep-not-%d", d)})
 			emit(C06Case{Src: rep("(if b0 1 ", d) + "2" + rep(")", d), Mask: 15, Events: ev, Binds: []int{1, 5}, NoDump: d > 300, Origin: fmt.Sprintf("deep-if-%d", d)})
 			emit(C06Case{Src: rep("! (", d) + "true" + rep(")", d), Infix: true, Mask: 5, Events: ev, Binds: []int{1}, NoDump: d > 300, Origin: fmt.Sprintf("deep-infix-%d", d)})
